@@ -217,8 +217,19 @@ func c03Drive(b *Bed, listener string, qs []*c03Query, wait time.Duration) {
 				}
 				continue
 			}
-			for _, q := range part {
+			for qi, q := range part {
 				q.Batch = part
+				if qi%3 == 1 {
+					// the last one or two octets of this frame travel in a segment of their own
+					f := dnsclient.Frame(q.Wire)
+					cut := len(f) - 1 - qi%2
+					q.TSend = clock.Now()
+					if c.WriteRaw(f[:cut]) == nil {
+						time.Sleep(2 * time.Millisecond)
+						c.WriteRaw(f[cut:])
+					}
+					continue
+				}
 				q.TSend, _ = c.SendFrame(q.Wire)
 			}
 			c.WaitFrames(len(part), wait)
